@@ -116,6 +116,16 @@ Fixpoint gl_goc (rec : path -> aval -> result pfeature) (fi : aval) (here : path
       end
   end.
 
+(* the cardinality of the group relation of a feature of type XOR / OR / (otherwise) GENOR *)
+Definition gl_grp (fi fid : aval) (fty : string) (n : nat) : result (Z * Z) :=
+  if String.eqb fty "XOR" then Ok (1%Z, 1%Z)
+  else if String.eqb fty "OR" then Ok (1%Z, Z.of_nat n)
+  else
+    match finfo_get fi fid "min" with Err e => Err e | Ok a =>
+    match finfo_get fi fid "max" with Err e => Err e | Ok b =>
+    match jint a with Err e => Err e | Ok a' =>
+    match jint b with Err e => Err e | Ok b' => Ok (a', b') end end end end.
+
 Definition gl_build (fi fid : aval) (fty : string) (info : finfo) (here : path) (parent : ptr)
   (kids : list (pfeature * bool)) : result pfeature :=
   if String.eqb fty "FEATURE" then
@@ -125,20 +135,14 @@ Definition gl_build (fi fid : aval) (fty : string) (info : finfo) (here : path) 
     let singles := map (fun ko : pfeature * bool => PRelation (PPath here) 1%Z 1%Z [fst ko])
                        (filter (fun ko : pfeature * bool => negb (snd ko)) kids) in
     let group := map fst (filter (fun ko : pfeature * bool => snd ko) kids) in
-    let grp :=
-      if String.eqb fty "XOR" then Ok (1%Z, 1%Z)
-      else if String.eqb fty "OR" then Ok (1%Z, Z.of_nat (List.length group))
-      else if String.eqb fty "GENOR" then
-        match finfo_get fi fid "min" with Err e => Err e | Ok a =>
-        match finfo_get fi fid "max" with Err e => Err e | Ok b =>
-        match jint a with Err e => Err e | Ok a' =>
-        match jint b with Err e => Err e | Ok b' => Ok (a', b') end end end end
-      else
-        match singles with [] => Err UnboundLocalError | _ => Err OtherExn end in
-    match grp with
-    | Err e => Err e
-    | Ok (a, b) =>
-        Ok (PFeature info parent [] (singles ++ [PRelation (PPath here) a b group]))
+    match group with
+    | [] => Ok (PFeature info parent [] singles)
+    | _ :: _ =>
+        match gl_grp fi fid fty (List.length group) with
+        | Err e => Err e
+        | Ok (a, b) =>
+            Ok (PFeature info parent [] (singles ++ [PRelation (PPath here) a b group]))
+        end
     end.
 
 Lemma glencoe_parse_tree_S fuel fi here parent node :
@@ -148,6 +152,7 @@ Lemma glencoe_parse_tree_S fuel fi here parent node :
   match finfo_get fi fid "name" with Err e => Err e | Ok nmv =>
   match jstr tyv with Err e => Err e | Ok fty =>
   match jstr nmv with Err e => Err e | Ok fname =>
+    if negb (gl_known_type fty) then Err FlamaException else
     if jhas "children" node then
       match jget "children" node with Err e => Err e | Ok chv =>
       match jlist chv with Err e => Err e | Ok chl =>
@@ -165,6 +170,7 @@ Proof.
   destruct (finfo_get fi fid "name") as [nmv|e]; [|reflexivity].
   destruct (jstr tyv) as [fty|e]; [|reflexivity].
   destruct (jstr nmv) as [fname|e]; [|reflexivity].
+  destruct (negb (gl_known_type fty)); [reflexivity|].
   destruct (jhas "children" node); [|reflexivity].
   destruct (jget "children" node) as [chv|e]; [|reflexivity].
   destruct (jlist chv) as [chl|e]; [|reflexivity].
@@ -326,6 +332,16 @@ Proof.
   unfold ko_mand in W2. rewrite W2. reflexivity.
 Qed.
 
+Lemma singles_wf here kids :
+  kids_wf here (gl_where false (map ko_mand kids)) 0 kids ->
+  wf_rels here 0
+    (map (fun ko : pfeature * bool => PRelation (PPath here) 1%Z 1%Z [fst ko])
+         (filter (fun ko : pfeature * bool => negb (snd ko)) kids)) = true.
+Proof.
+  intros H. pose proof (where_wf2 here kids [] H) as H2. cbn [app List.length filter] in H2.
+  exact (proj1 (group_wf2 _ _ _ _ _ H2)).
+Qed.
+
 Lemma gl_build_wf fi fid fty fname here parent kids pf :
   kids_wf here (gl_where (String.eqb fty "FEATURE") (map ko_mand kids)) 0 kids ->
   gl_build fi fid fty (mk_info fname) here parent kids = Ok pf ->
@@ -335,9 +351,15 @@ Proof.
   destruct (String.eqb fty "FEATURE").
   - injection H as <-. rewrite ptr_wf_at_unfold, ptr_eqb_refl. cbn [forallb List.length mk_info f_attrs Nat.eqb andb].
     apply plain_wf with (mand := map ko_mand kids). exact Hk.
-  - match type of H with match ?G with _ => _ end = _ => destruct G as [[a b]|e]; [|discriminate] end.
-    injection H as <-. rewrite ptr_wf_at_unfold, ptr_eqb_refl. cbn [forallb List.length mk_info f_attrs Nat.eqb andb].
-    apply group_wf. exact Hk.
+  - cbv zeta in H.
+    destruct (map fst (filter (fun ko : pfeature * bool => snd ko) kids)) as [|g0 gs] eqn:Eg.
+    + injection H as <-. rewrite ptr_wf_at_unfold, ptr_eqb_refl.
+      cbn [forallb List.length mk_info f_attrs Nat.eqb andb].
+      apply singles_wf. exact Hk.
+    + match type of H with match ?G with _ => _ end = _ => destruct G as [[a b]|e]; [|discriminate] end.
+      injection H as <-. rewrite ptr_wf_at_unfold, ptr_eqb_refl.
+      cbn [forallb List.length mk_info f_attrs Nat.eqb andb].
+      rewrite <- Eg. apply group_wf. exact Hk.
 Qed.
 
 Lemma glencoe_parse_tree_wf : forall fuel fi here parent node pf,
@@ -350,6 +372,7 @@ Proof.
   destruct (finfo_get fi fid "name") as [nmv|e]; [|discriminate].
   destruct (jstr tyv) as [fty|e]; [|discriminate].
   destruct (jstr nmv) as [fname|e]; [|discriminate].
+  destruct (negb (gl_known_type fty)); [discriminate|].
   destruct (jhas "children" node).
   - destruct (jget "children" node) as [chv|e]; [|discriminate].
     destruct (jlist chv) as [chl|e]; [|discriminate].
@@ -1585,6 +1608,33 @@ Proof.
     cbn [flat_map]. rewrite app_nil_r. apply Permutation_refl.
 Qed.
 
+Lemma gl_known_type_feature_type f : gl_known_type (glencoe_feature_type f) = true.
+Proof.
+  unfold glencoe_feature_type.
+  destruct (feat_is_alternative_group f); [reflexivity|].
+  destruct (feat_is_or_group f); [reflexivity|].
+  destruct (feat_is_cardinality_group f || feat_is_mutex_group f); reflexivity.
+Qed.
+
+(* with a non-empty group the build step makes the group relation *)
+Lemma gl_build_group fi fid fty info here parent kids :
+  String.eqb fty "FEATURE" = false ->
+  map fst (filter (fun ko : pfeature * bool => snd ko) kids) <> [] ->
+  gl_build fi fid fty info here parent kids
+  = match gl_grp fi fid fty (List.length (map fst (filter (fun ko : pfeature * bool => snd ko) kids))) with
+    | Err e => Err e
+    | Ok (a, b) =>
+        Ok (PFeature info parent []
+              (map (fun ko : pfeature * bool => PRelation (PPath here) 1%Z 1%Z [fst ko])
+                   (filter (fun ko : pfeature * bool => negb (snd ko)) kids)
+               ++ [PRelation (PPath here) a b (map fst (filter (fun ko : pfeature * bool => snd ko) kids))]))
+    end.
+Proof.
+  intros Hp Hne. unfold gl_build. rewrite Hp. cbv zeta.
+  destruct (map fst (filter (fun ko : pfeature * bool => snd ko) kids)) as [|g0 gs]; [contradiction|].
+  reflexivity.
+Qed.
+
 Lemma gl_tree_roundtrip kv : forall f,
   gl_feature_ok f = true -> NoDup (NF f) -> tbl_ok kv f ->
   (exists p, assoc (name f) kv = Some (glencoe_feature_info p f)) ->
@@ -1632,6 +1682,7 @@ Proof.
       apply Htbl; [left; reflexivity|exact (HinK c Hc)]. }
   rewrite glencoe_parse_tree_S, tree_id. cbv beta iota.
   rewrite !(finfo_get_spec _ _ _ _ Hself), info_type, info_name. cbv beta iota. cbn [jstr]. cbv beta iota.
+  rewrite gl_known_type_feature_type. cbn [negb]. cbv beta iota.
   rewrite gl_norm_feature_unfold.
   destruct (gl_rels_ok_cases rs Hrels) as [[HG Hall] | [g [HG Hall]]].
   - (* plain *)
@@ -1662,6 +1713,11 @@ Proof.
     match goal with |- context [gl_goc _ _ _ ?wh 0%nat _] => destruct (Hloop wh) as [kids [Hk Ek]] end.
     rewrite Hk.
     destruct (erase_kids_rels here (child_mand rs) kids _ Ek) as (_ & E2 & E3).
+    assert (Hne : map fst (filter (fun ko : pfeature * bool => snd ko) kids) <> []).
+    { intro E. rewrite E in E3. cbn [map] in E3. symmetry in E3. apply map_eq_nil in E3.
+      pose proof (group_kids_perm rs g Hndc HG Hall) as HP. rewrite E3 in HP.
+      apply Permutation_nil in HP. destruct g as [a b [|c cs]]; discriminate. }
+    rewrite gl_build_group; [|destruct (rel_is_alternative g), (rel_is_or g); reflexivity|exact Hne].
     destruct (rel_is_alternative g) eqn:Ea; [|destruct (rel_is_or g) eqn:Eo].
     + eexists. split; [reflexivity|].
       rewrite erase_unfold, map_app. cbn [map erase_rel]. rewrite E2, E3.
@@ -1678,7 +1734,7 @@ Proof.
       assert (Hty : glencoe_feature_type (Feature i rs) = "GENOR"%string).
       { rewrite (feature_type_group i rs g Hgin Hoth Hggrp), Ea, Eo. reflexivity. }
       destruct (info_minmax p i rs g Hty Hfind) as [Hmin Hmax].
-      unfold gl_build. cbn [String.eqb Ascii.eqb Bool.eqb].
+      unfold gl_grp. cbn [String.eqb Ascii.eqb Bool.eqb].
       rewrite !(finfo_get_spec _ _ _ _ Hself), Hmin, Hmax. cbn [jint].
       eexists. split; [reflexivity|].
       rewrite erase_unfold, map_app. cbn [map erase_rel]. rewrite E2, E3. reflexivity.
@@ -2122,6 +2178,143 @@ Module GlencoeExamples.
   Proof. vm_compute. reflexivity. Qed.
 End GlencoeExamples.
 
+(* ========================================================================================== *)
+(* Part 3: no relation of an accepted document is empty                                         *)
+(* ========================================================================================== *)
+Definition prel_ne (r : prelation) : bool :=
+  negb (Nat.eqb (List.length (pr_children r)) 0) && forallb rels_nonempty_p (pr_children r).
+
+Lemma gl_rels_nonempty_p_eq : forall i p a rs,
+  rels_nonempty_p (PFeature i p a rs) = forallb prel_ne rs.
+Proof.
+  intros i p a rs. cbn [rels_nonempty_p].
+  induction rs as [|[rp x y cs] rs IH]; [reflexivity|].
+  cbn [forallb]. rewrite IH. reflexivity.
+Qed.
+
+Definition kids_ne (kids : list (pfeature * bool)) : Prop :=
+  Forall (fun ko : pfeature * bool => rels_nonempty_p (fst ko) = true) kids.
+
+Lemma gl_goc_ne rec fi here wh :
+  (forall h c pc, rec h c = Ok pc -> rels_nonempty_p pc = true) ->
+  forall chl p kids, gl_goc rec fi here wh p chl = Ok kids -> kids_ne kids.
+Proof.
+  intros Hrec. induction chl as [|c cs IH]; intros p kids H; cbn [gl_goc] in H.
+  - injection H as <-. constructor.
+  - destruct (rec (here ++ [wh p]) c) as [pc|e] eqn:Hpc; [|discriminate].
+    destruct (gl_child_opt fi c) as [opt|e]; [|discriminate].
+    destruct (gl_goc rec fi here wh (S p) cs) as [rest|e] eqn:Hrest; [|discriminate].
+    injection H as <-. constructor; [exact (Hrec _ _ _ Hpc)|exact (IH _ _ Hrest)].
+Qed.
+
+(* one-child relations over kids whose own relations are non-empty *)
+Lemma single_rels_ne here (lo : pfeature * bool -> Z) : forall kids,
+  kids_ne kids ->
+  forallb prel_ne (map (fun ko : pfeature * bool => PRelation (PPath here) (lo ko) 1%Z [fst ko]) kids) = true.
+Proof.
+  induction 1 as [|ko kids Hko _ IH]; [reflexivity|].
+  cbn [map forallb]. rewrite IH, andb_true_r. unfold prel_ne.
+  cbn [pr_children List.length Nat.eqb negb forallb andb]. rewrite Hko. reflexivity.
+Qed.
+
+Lemma kids_ne_filter (g : pfeature * bool -> bool) kids : kids_ne kids -> kids_ne (filter g kids).
+Proof.
+  induction 1 as [|ko kids Hko _ IH]; cbn [filter]; [constructor|].
+  destruct (g ko); [constructor; assumption|exact IH].
+Qed.
+
+Lemma kids_ne_fst kids : kids_ne kids -> forallb rels_nonempty_p (map fst kids) = true.
+Proof.
+  induction 1 as [|ko kids Hko _ IH]; [reflexivity|]. cbn [map forallb]. rewrite Hko, IH. reflexivity.
+Qed.
+
+Lemma gl_build_ne fi fid fty info here parent kids pf :
+  kids_ne kids -> gl_build fi fid fty info here parent kids = Ok pf -> rels_nonempty_p pf = true.
+Proof.
+  intros Hk H. unfold gl_build in H.
+  destruct (String.eqb fty "FEATURE").
+  - injection H as <-. rewrite gl_rels_nonempty_p_eq.
+    exact (single_rels_ne here (fun ko => if snd ko then 0%Z else 1%Z) kids Hk).
+  - cbv zeta in H.
+    pose proof (single_rels_ne here (fun _ => 1%Z) _
+                  (kids_ne_filter (fun ko : pfeature * bool => negb (snd ko)) kids Hk)) as Hs.
+    pose proof (kids_ne_fst _ (kids_ne_filter (fun ko : pfeature * bool => snd ko) kids Hk)) as Hg.
+    destruct (map fst (filter (fun ko : pfeature * bool => snd ko) kids)) as [|g0 gs] eqn:Eg.
+    + injection H as <-. rewrite gl_rels_nonempty_p_eq. exact Hs.
+    + match type of H with match ?G with _ => _ end = _ => destruct G as [[a b]|e]; [|discriminate] end.
+      injection H as <-. rewrite gl_rels_nonempty_p_eq, forallb_app, Hs.
+      cbn [forallb andb]. rewrite andb_true_r. unfold prel_ne. cbn [pr_children].
+      rewrite Hg. reflexivity.
+Qed.
+
+Lemma glencoe_parse_tree_ne : forall fuel fi here parent node pf,
+  glencoe_parse_tree fuel fi here parent node = Ok pf -> rels_nonempty_p pf = true.
+Proof.
+  induction fuel as [|fuel IH]; intros fi here parent node pf H; [discriminate|].
+  rewrite glencoe_parse_tree_S in H.
+  destruct (jget "id" node) as [fid|e]; [|discriminate].
+  destruct (finfo_get fi fid "type") as [tyv|e]; [|discriminate].
+  destruct (finfo_get fi fid "name") as [nmv|e]; [|discriminate].
+  destruct (jstr tyv) as [fty|e]; [|discriminate].
+  destruct (jstr nmv) as [fname|e]; [|discriminate].
+  destruct (negb (gl_known_type fty)); [discriminate|].
+  destruct (jhas "children" node).
+  - destruct (jget "children" node) as [chv|e]; [|discriminate].
+    destruct (jlist chv) as [chl|e]; [|discriminate].
+    match type of H with match ?G with _ => _ end = _ => destruct G as [kids|e] eqn:Hgoc; [|discriminate] end.
+    apply gl_goc_ne in Hgoc; [|intros h c pc Hp; exact (IH _ _ _ _ _ Hp)].
+    eapply gl_build_ne; eassumption.
+  - injection H as <-. reflexivity.
+Qed.
+
+Theorem glencoe_read_nonempty : forall d pm, glencoe_read d = Ok pm -> rels_nonempty_p (proot pm) = true.
+Proof.
+  intros d pm H. unfold glencoe_read in H.
+  destruct (jget "features" d) as [fv|e]; [|discriminate].
+  destruct (jget "tree" d) as [tv|e]; [|discriminate].
+  match type of H with match ?G with _ => _ end = _ => destruct G as [cv|e]; [|discriminate] end.
+  destruct (glencoe_parse_tree (aval_depth tv) fv [] PNone tv) as [pr|e] eqn:Hp; [|discriminate].
+  destruct cv; try discriminate.
+  match type of H with match ?G with _ => _ end = _ => destruct G as [cs|e]; [|discriminate] end.
+  injection H as <-. cbn [proot].
+  exact (glencoe_parse_tree_ne _ _ _ _ _ _ Hp).
+Qed.
+
+(* ---- concrete checks of the reader on hand-written documents ---- *)
+(* an "OR" feature whose two children are both non-optional: two [1..1] one-child relations, no group relation *)
+Example glencoe_read_all_mandatory_group :
+  glencoe_read
+    (VMap [("features",
+            VMap [("r", VMap [("name", VStr "r"); ("optional", VBool false); ("type", VStr "OR")]);
+                  ("a", VMap [("name", VStr "a"); ("optional", VBool false); ("type", VStr "FEATURE")]);
+                  ("b", VMap [("name", VStr "b"); ("optional", VBool false); ("type", VStr "FEATURE")])]);
+           ("tree", VMap [("id", VStr "r");
+                          ("children", VList [VMap [("id", VStr "a")]; VMap [("id", VStr "b")]])]);
+           ("constraints", VMap [])])
+  = Ok {| proot :=
+            PFeature (mk_info "r") PNone []
+              [PRelation (PPath []) 1 1 [PFeature (mk_info "a") (PPath []) [] []];
+               PRelation (PPath []) 1 1 [PFeature (mk_info "b") (PPath []) [] []]];
+          pctcs := [] |}.
+Proof. vm_compute. reflexivity. Qed.
+
+(* an unknown feature type is a library error, with or without children *)
+Example glencoe_read_unknown_type :
+  glencoe_read
+    (VMap [("features",
+            VMap [("r", VMap [("name", VStr "r"); ("optional", VBool false); ("type", VStr "AND")]);
+                  ("a", VMap [("name", VStr "a"); ("optional", VBool true); ("type", VStr "FEATURE")])]);
+           ("tree", VMap [("id", VStr "r"); ("children", VList [VMap [("id", VStr "a")]])]);
+           ("constraints", VMap [])])
+  = Err FlamaException
+  /\ glencoe_read
+       (VMap [("features",
+               VMap [("r", VMap [("name", VStr "r"); ("optional", VBool false); ("type", VStr "AND")])]);
+              ("tree", VMap [("id", VStr "r")]);
+              ("constraints", VMap [])])
+     = Err FlamaException.
+Proof. split; vm_compute; reflexivity. Qed.
+
 Print Assumptions glencoe_read_ptr_wf.
 Print Assumptions glencoe_read_ctc_shape.
 Print Assumptions glencoe_write_total.
@@ -2131,3 +2324,4 @@ Print Assumptions glencoe_norm_ctcs.
 Print Assumptions glencoe_norm_idempotent.
 Print Assumptions glencoe_norm_ok.
 Print Assumptions glencoe_roundtrip_norm.
+Print Assumptions glencoe_read_nonempty.
